@@ -140,9 +140,14 @@ def _runner(src):
     ab = a.group(0) if a else ""
     facts = [
         ("rtRunnerLoopsUntilPending", _has(body, "loop { match ready ! ( self . rx . poll_recv ( cx ) )")),
-        ("rtRunnerClosedEnds", _has(body, "None => return Poll :: Ready ( ( ) ) ,")),
-        ("rtRunnerStopEnds", _has(body, "ArbiterCommand :: Stop => { return Poll :: Ready ( ( ) ) ; }")),
-        ("rtRunnerExecuteSpawnsLocal", _has(body, "ArbiterCommand :: Execute ( task_fut ) => { tokio :: task :: spawn_local ( task_fut ) ; }")),
+        # two equivalent shapes of the three arms: nested (`Some(item) => match item { Stop => …, Execute(f) => … }`) or
+        # flat with the two ending arms merged (`None | Some(Stop) => return Ready(())`, harmless/h10)
+        ("rtRunnerClosedEnds", _has(body, "None => return Poll :: Ready ( ( ) ) ,")
+            or _has(body, "None | Some ( ArbiterCommand :: Stop ) => return Poll :: Ready ( ( ) ) ,")),
+        ("rtRunnerStopEnds", _has(body, "ArbiterCommand :: Stop => { return Poll :: Ready ( ( ) ) ; }")
+            or _has(body, "None | Some ( ArbiterCommand :: Stop ) => return Poll :: Ready ( ( ) ) ,")),
+        ("rtRunnerExecuteSpawnsLocal", _has(body, "ArbiterCommand :: Execute ( task_fut ) => { tokio :: task :: spawn_local ( task_fut ) ; }")
+            or _has(body, "Some ( ArbiterCommand :: Execute ( task_fut ) ) => { tokio :: task :: spawn_local ( task_fut ) ; }")),
         ("rtHandleSpawnSends", _has(hb, "self . tx . send ( ArbiterCommand :: Execute ( Box :: pin ( future ) ) ) . is_ok ( )")),
         ("rtHandleSpawnFnIsSpawn", _has(hb, "self . spawn ( async { f ( ) } )")),
         ("rtHandleStopSends", _has(hb, "self . tx . send ( ArbiterCommand :: Stop ) . is_ok ( )")),
